@@ -92,7 +92,8 @@ def edge_module(rng, kind):
             for s in ch[1:]:
                 t = P.App(t, P.Symbol(s))
             mod.add_axiom(t)
-        a, b_ = P.Symbol(names[-1]), P.Symbol(names[-2])
+        # the claim mentions the two newest symbols and, again, one of the very first ones (a symbol keeps its number however long ago it was seen)
+        a, b_ = P.Symbol(names[-1]), P.App(P.Symbol(names[-2]), P.Symbol(chunk[0][rng.randrange(3)] if chunk and len(chunk[0]) >= 3 else names[-2]))
         th = prop.prop1_inst(a, b_)
         mod.add_claim(th.conc); mod.add_proof_expression(th)
         return mw.Built(mod, {'edge'}, [kind]), n > 256
